@@ -1591,8 +1591,10 @@ class ContactHandler(Messenger, dbus.service.Object):
         if self._send_segment_size is None:
             return
 
-        # heuristic for when to attempt to put new segments in
-        if buf_use < 5 * self._send_segment_size:
+        # heuristic for when to attempt to put new segments in;
+        # when terminating, the flush of the last output may be what makes
+        # the session idle (also with no segment size negotiated at all)
+        if self._in_term or buf_use < 5 * self._send_segment_size:
             self._process_queue_trigger()
 
     def _tx_teardown(self):
